@@ -664,6 +664,10 @@ def tier4():
     out.append(S(("n", ["Rebuild", BYTE, ["fn", "len_", TH("d")]]), ("d", ["Bytes", TH("n")])))
     out.append(S(("n", ["Rebuild", ["VarInt"], ["fn", "len_", TH("d")]]), ("d", ["Array", TH("n"), I(2, False, "l")])))
     out.append(S(("n", ["Default", BYTE, 2]), ("d", ["Bytes", TH("n")])))
+    # a later member whose COUNT / BRANCH depends on a member that build derives (what is in the context is the built value)
+    out.append(S(("n", ["Default", BYTE, 2]), ("d", ["Array", TH("n"), BYTE])))
+    out.append(S(("k", ["ConstV", 2, BYTE]), ("v", ["Switch", TH("k"), [[1, BYTE], [2, I(2, False, "b")]], None]), ("t", BYTE)))
+    out.append(S(("f", ["Default", ["Flag"], True]), ("v", ["If", TH("f"), BYTE]), ("t", BYTE)))
     out.append(S(("a", BYTE), ("c", ["Computed", ["bin", "+", TH("a"), ["k", 1]]])))
     out.append(S(("a", BYTE), ("b", BYTE), ("c", ["Computed", ["bin", "*", TH("a"), TH("b")]]), ("d", ["Bytes", ["bin", "&", TH("c"), ["k", 3]]])))
     out.append(S((None, ["ConstB", b"MZ"]), ("a", BYTE), (None, ["Padding", 2])))
@@ -692,10 +696,14 @@ def lazy_hosts():
     """every non-seeking context-free sized term of tiers 1 and 2 as a member that lazy parsing measures and skips instead of
     parsing (LazyStruct member, Lazy member of a Struct, LazyArray element)"""
     out = []
-    for x in tier1() + tier2(False):
+    # length-prefixed members whose payload has a static size: the library states a size for them and measures them by reading the prefix
+    sized_prefixed = [["Prefixed", BYTE, I(2, False, "b"), False], ["Prefixed", BYTE, ["Bytes", 2], False], ["Prefixed", I(2, False, "b"), BYTE, True],
+                      ["Prefixed", BYTE, ["Struct", [["a", BYTE], ["b", BYTE]]], False]]
+    for x in tier1() + tier2(False) + sized_prefixed:
         a = attrs(x)
-        if a.ctxfree and a.extent in ("fixed", "zero") and not a.seeks:
-            out += [["LazyStruct", [["a", x], ["b", BYTE]]], ["Struct", [["a", ["Lazy", x]], ["b", BYTE]]], ["LazyArray", 2, x]]
+        if a.ctxfree and not a.seeks and (a.extent in ("fixed", "zero") or x[0] in ("Prefixed", "PrefixedArray", "PascalString")):
+            # length-prefixed members too: the library states a size for them when the payload has one, and measures them by reading the prefix
+            out += [["LazyStruct", [["a", x], ["b", BYTE]]], ["Struct", [["a", ["Lazy", x]], ["b", BYTE]]], ["LazyArray", 2, x], ["LazyArray", 3, x]]
     return out
 
 
@@ -879,6 +887,12 @@ def values(t, cap=6):
         return lists_of(values(t[2], 4), [0, 1, 2, 3])
     if k == "Array":
         return lists_of(values(t[2], 4), [t[1]])
+    if k == "LazyArray" and isinstance(t[1], int):
+        return lists_of(values(t[2], 4), [t[1]])
+    if k == "LazyStruct":
+        return values(["Struct", t[1]], cap)
+    if k == "Lazy":
+        return values(t[1], cap)
     if k == "GreedyRange":
         return lists_of(values(t[1], 4), [0, 1, 2])
     if k == "RepeatUntil":
